@@ -96,6 +96,18 @@ def gen_case(n, case):
             return "{ let (r, n) = crate::block_on(%s); polls = n; r }" % c
         return c
 
+    if kind == "atrait":
+        # called under one local parent, polled under another
+        split = """
+        let mut slog = Log::new(); let mut spath = String::new();
+        let split = {
+            let (ra, rb) = crate::split_begin();
+            let fut = { let _g = ra.set_local_parent(); S.traced_%d(&mut slog, %s, &mut spath) };
+            { let _g = rb.set_local_parent(); let _ = catch_unwind(AssertUnwindSafe(|| crate::block_on(fut))); }
+            crate::split_end(ra, rb)
+        };""" % (n, ARGS)
+    else:
+        split = "        let split = Value::Array(vec![]);"
     if case["naming"] == "short":
         want_name = '"traced_%d".to_string()' % n
     elif case["naming"] == "custom":
@@ -115,15 +127,16 @@ def gen_case(n, case):
         let tpolls = polls;
         let mut nlog = Log::new(); let mut npath = String::new(); let mut nres = None;
         let (recs0, _) = crate::traced_run(false, &mut || { nres = Some(catch_unwind(AssertUnwindSafe(|| %s))); });
+%s
         let pairs = |l: &Log| Value::Array(l.iter().map(|e| { let mut it = e.splitn(3, ':'); let t = it.next().unwrap_or(""); let i: u32 = it.next().and_then(|x| x.parse().ok()).unwrap_or(0); json!([t, i, it.next().unwrap_or("")]) }).collect());
         json!({"ev": "macro", "id": %d, "case": case,
                "plain": {"log": pairs(&plog), "out": crate::outcome(pres), "path": ppath, "polls": ppolls},
                "traced": {"log": pairs(&tlog), "out": crate::outcome(tres.unwrap()), "path": tpath.clone(), "polls": tpolls},
                "noparent": {"log": pairs(&nlog), "out": crate::outcome(nres.unwrap()), "recs": recs0.len()},
-               "want_name": %s, "want_props": %s,
+               "want_name": %s, "want_props": %s, "split": split,
                "recs": crate::recs_json(&recs, root)})
     }
-""" % (json.dumps(json.dumps(case)), call("plain", "plog", "ppath"), call("traced", "tlog", "tpath"), call("traced", "nlog", "npath"), n, want_name,
+""" % (json.dumps(json.dumps(case)), call("plain", "plog", "ppath"), call("traced", "tlog", "tpath"), call("traced", "nlog", "npath"), split, n, want_name,
        "json!(%s)" % json.dumps(expected_props(case)))
     return "pub mod c%d {\n    #![allow(unused)]\n    use super::*;\n%s%s}\n" % (n, defs, run)
 
